@@ -36,6 +36,11 @@ class FakeTask(object):
     def wait(self):
         d = self.drv
         d.now_ms += self.o['dur']
+        if d.pending_ntf:
+            # the producers finish (and notify) while this execution is in flight
+            d.pending_ntf = False
+            d.ntf_mid.append(d.k)
+            d.eng.notify_all_producers_finished()
         if self.o['sui']:
             d.fire_suicide()
         self.returncode = self.o['rc']
@@ -137,6 +142,10 @@ class Driver(object):
 
     def _sleep(self, secs):
         # the monitor sleeps: one poll is over
+        if self.pending_ntf:
+            # the poll launched nothing: the notification arrives right after it
+            self.pending_ntf = False
+            self.eng.notify_all_producers_finished()
         self._observe()
         self.k += 1
         if self.k >= len(self.steps):
@@ -147,6 +156,7 @@ class Driver(object):
         self.now_ms += st['dt']
         for ev in st['evs']:
             self._apply(ev)
+        self.pending_ntf = bool(st['o'].get('ntf'))
 
     def run_case(self, cfg, steps):
         """cfg: dict(retries, has_prod, same_stage, prod_rep, check_out, has_delay, interval, t0)
@@ -169,6 +179,8 @@ class Driver(object):
         self.timer_cb = None
         self.fired = []
         self.kills = []
+        self.pending_ntf = False
+        self.ntf_mid = []
 
         prod = _Obj()
         prod.stageIndex = 0 if cfg['same_stage'] else -1
@@ -238,8 +250,12 @@ class Driver(object):
         try:
             for ev in steps[0]['evs']:
                 self._apply(ev)
+            self.pending_ntf = bool(steps[0]['o'].get('ntf'))
             eng.run()
             finished = True
+            if self.pending_ntf:
+                self.pending_ntf = False
+                self.eng.notify_all_producers_finished()
             self._observe()
         except StopDriving:
             pass
